@@ -17,7 +17,7 @@ from mc.ref import ips
 ID = "C12"
 LEVEL = "exploration"
 LEVEL_TEXT = ("Complete enumeration of the option lattice format {ips,sfc} x mapping {low,low2,high,not given} x copier header {off,on} x "
-              "defines {none, one, two incl. a hex value} (48 points) x every generated program valid at that point (position moves into "
+              "defines {none, one, two (the second in terms of the first), two with value zero} (64 points) x every generated program valid at that point (position moves into "
               "several banks and mirrors, @= relocation, labels in blocks/scopes/macros/loops, defines used in data, .if and .for "
               "bounds, overlapping and bank-crossing blocks, a 65552-byte block that IPS must split, .include/.incbin) through Program.assemble, Program.assemble_as_patch, "
               "cli_main in-process and, for every lattice point, a real `python -m a816.cli` process. Output files are read back "
@@ -37,7 +37,7 @@ FORMATS = ["ips", "sfc"]
 MAPPINGS = ["low", "low2", "high", None]
 HEADERS = [False, True]
 # the last configuration defines BAR in terms of FOO (defines are installed in command-line order)
-DEFINES = [(), (("FOO", "5"),), (("FOO", "5"), ("BAR", "FOO-2"))]
+DEFINES = [(), (("FOO", "5"),), (("FOO", "5"), ("BAR", "FOO-2")), (("FOO", "0"), ("BAR", "4-4"))]
 
 
 def define_values(defines):
@@ -55,7 +55,7 @@ BASE[None] = BASE["low"]
 
 
 def bound(tier):
-    return ("48 lattice points (odd ones additionally with --verbose --dump-symbols and an output path in a subdirectory) x 7-9 programs x 3 in-process entry points; 48 lattice points x " + ("all" if tier == "thorough" else "2") +
+    return ("64 lattice points (odd ones additionally with --verbose --dump-symbols and an output path in a subdirectory) x 7-9 programs x 3 in-process entry points; 64 lattice points x " + ("all" if tier == "thorough" else "2") +
             " programs as real CLI processes")
 
 
@@ -80,6 +80,9 @@ def programs(mapping, defines):
         # labels and bytes before the first *= (position 0 of the initial mapping): front ends must still agree with the in-memory API
         "no-org-first": [("label", "early"), ("data", "db", [N(0x21), N(0x22)]), ("data", "dl", [S("early")]), ("org", N(b["a"])), ("label", "late"),
                          ("data", "dl", [S("early"), S("late")])],
+        # blocks written high, then lower, then beyond everything so far (SFC: seek order); a literal TAB inside a string
+        "order-and-tab": [("org", N(b["a"] + 0x300)), ("data", "db", [N(0x31), N(0x32)]), ("org", N(b["a"] + 0x100)), ("data", "db", [N(0x21)]),
+                          ("org", N(b["a"] + 0x500)), ("ascii", "tab\there"), ("label", "aftertab"), ("data", "dl", [S("aftertab")])],
         "bigblob": [("org", N(b["a"])), ("label", "big"), ("incbin", "big.bin"), ("label", "afterbig"), ("data", "dl", [S("afterbig")])],
         "files": [("org", N(b["a"] + 0x10)), ("include", "inc.s", [("label", "fromfile"), ("data", "dw", [S("fromfile")])]), ("incbin", "blob.bin"),
                   ("data", "dl", [S("blob_bin"), S("blob_bin__size")])],
